@@ -20,7 +20,7 @@ CHECKS = {
     "C01": dict(
         require={'write-through-depth>=2-stepped': 0.05, 'bulk-write-noncontiguous-target': 0.1, 'c-backed': 0.2, '__nontrivial__': 0.2},
         pkg="c01", level="exploration",
-        rule="rapid-generated histories (1-40 operations: slice, rank-reducing slice, Get/Get1-3, Set/Set1-3, Apply, Apply1, ApplySlice, CopyFrom) over one root of a drawn element type (8) and back-end (Go slice / C memory with canaries), "
+        rule="rapid-generated histories (1-40 operations: slice, rank-reducing slice, Get/Get1-3, Set/Set1-3, Apply, Apply1, ApplySlice, CopyFrom) over one root of a drawn element type (8) and back-end (Go slice / C memory with canaries), up to 4 dimensions of extent 1..6 (9 in the thorough tier), in one case of five with one axis of 8..70 elements, "
              "executed against an extensional reference model (a view = explicit list of storage offsets); after every operation the raw storage, every live view element-by-element and the caller's loc vectors are compared. "
              "Non-trivial = the history writes through a view of depth >= 2 whose chain has a step > 1, or makes a bulk write to a non-contiguous target; distinct = distinct history (hash of the operation list)",
         assumptions=["C-backed int/uint arrays hold 32-bit C ints: generated values stay in the common range"],
@@ -28,10 +28,10 @@ CHECKS = {
         thorough=dict(stages=[st(0, fuzz="FuzzSliceWriteHistories", fuzztime="60s", timeout=600), st(250000, shards=16, timeout=3000)]),
     ),
     "C02": dict(
-        require={'V:non-contiguous': 0.03, 'mixed-contiguity': 0.02, '__nontrivial__': 0.2},
+        require={'V:non-contiguous': 0.03, 'mixed-contiguity': 0.02, 'big-array(>=1021 elements, size next to a block boundary)': 0.005, '__nontrivial__': 0.2},
         pkg="c02", level="exploration",
         rule="rapid-generated views (classes forced: whole, leading rows, row-gapped, column, stepped, single element, extent-1 dims, slice chains to depth 3, reshaped) of all 8 element types and both back-ends; for each view: Unroll, Contiguous, Maximum/Minimum, "
-             "ReshapeFast, Reshape/MustReshape to right and wrong sizes, aliasing of reshape/unroll results, and one binary operation (CopyFrom, ApplySlice, Scale, AddTo, ApplyFunc1) against a second view of either contiguity (Scale / AddTo / ApplyFunc1 in one case of five with the destination itself as the source; CopyFrom in one case of three with a source smaller than the destination, which lands in its leading corner), all compared with the row-major element-wise definition on the extensional model; "
+             "ReshapeFast, Reshape/MustReshape to right and wrong sizes, aliasing of reshape/unroll results, and one binary operation (CopyFrom, ApplySlice, Scale, AddTo, ApplyFunc1) against a second view of either contiguity (plus large whole-array cases: 1021..131075 elements, counts within 3 of a power of two or twice one, where a blocked or size-thresholded fast path has its fencepost; Scale / AddTo / ApplyFunc1 in one case of five with the destination itself as the source; CopyFrom in one case of three with a source smaller than the destination, which lands in its leading corner), all compared with the row-major element-wise definition on the extensional model; "
              "plus the integer helpers (Offsets, IDivMod, Increment, Product, Multiply, Argmax, Maximum) on random vectors. Non-trivial = the view is non-contiguous, stepped or reshaped, or the binary operation has mixed contiguity or works in place, or a helper case of rank >= 2; distinct = distinct case",
         assumptions=[],
         quick=dict(stages=[st(6000, timeout=600)]),
@@ -57,9 +57,9 @@ CHECKS = {
                               st(30000, shards=3, pkg="libow", overlay=dict(map_main={"libopenwater": "libow"}), run="TestEntryPointThroughCABI", timeout=3000)]),
     ),
     "C04": dict(
-        require={'P<N': 0.05, 'B<N': 0.05, 'table-lengths-differ': 0.01, '__nontrivial__': 0.2},
+        require={'P<N': 0.05, 'B<N': 0.05, 'P>N': 0.02, 'many-cells(>=31)': 0.02, 'table-lengths-differ': 0.01, '__nontrivial__': 0.2},
         pkg="c04", level="exploration",
-        rule="rapid-generated (model from the whole catalogue, N=1..8 cells, P parameter sets and B input blocks each in {N, 1, divisor of N, coprime with N, N-1}, T=1..40, per-cell table lengths, states from the model's own initialisation / a previous run, outputs exact-size or with extra cells/timesteps, state rows with extra columns, Go- or C-backed arrays); "
+        rule="rapid-generated (model from the whole catalogue, N=1..8 cells - in one case of twelve 31..257 cells around powers of two, rarely 1023..4100 - P parameter sets and B input blocks each in {N, 1, divisor of N, coprime with N, N-1} or, in one case of eight, more than N, T=1..40, per-cell table lengths, states from the model's own initialisation / a previous run, outputs exact-size or with extra cells/timesteps, state rows with extra columns, Go- or C-backed arrays); "
              "oracle: every cell run alone on a fresh model object (parameter column i mod P, input block i mod B, its own state row): outputs and final states bit-identical, inputs/parameters bit-unchanged, sentinel outside the run region intact; InitialiseStates(N) row i = the cell initialised alone. "
              "Non-trivial = N>=2 and (P<N or B<N or table lengths differ between cells); distinct = (model,N,P,B,T,layout,parameters)",
         assumptions=["kernels are exercised inside their documented/physical parameter domain (simref.DrawCell); outside it some kernels panic in the cell goroutine"],
@@ -77,9 +77,9 @@ CHECKS = {
         thorough=dict(stages=[st(25000, shards=16, timeout=3500)]),
     ),
     "C14": dict(
-        require={'causality-interior-cut-stateful': 0.05, 'history>=3-runs-2-models': 0.1, "states-from-the-object's-InitialiseStates": 0.1},
+        require={'causality-interior-cut-stateful': 0.05, 'history>=3-runs-2-models': 0.1, 'calibration-loop-vs-fresh-process': 0.02, "states-from-the-object's-InitialiseStates": 0.1},
         pkg="c14", level="exploration",
-        rule="rapid-generated (any catalogued model, parameters/inputs/states in domain; a history of 0-4 other runs on the same object with other parameters or on other models; in one case of three every run starts from the states the model object itself hands out (InitialiseStates, as ow-single and the C entry point do) instead of a state row built by the harness; a cut t and a replacement or truncation of the inputs after t); oracle (metamorphic): bit-identical outputs and final states on repeat / fresh object / after the history; outputs[0..t] bit-identical under any change after t; inputs and parameters unchanged. "
+        rule="rapid-generated (any catalogued model, parameters/inputs/states in domain; a history of 0-4 other runs on the same object with other parameters or on other models; in one case of ten a calibration loop (variants of the case with one parameter scaled by 1-1/1024 run first on fresh objects, then the case; result compared bit for bit with the case run in a process of its own - this test binary re-executed); in one case of three every run starts from the states the model object itself hands out (InitialiseStates, as ow-single and the C entry point do) instead of a state row built by the harness; a cut t and a replacement or truncation of the inputs after t); oracle (metamorphic): bit-identical outputs and final states on repeat / fresh object / after the history; outputs[0..t] bit-identical under any change after t; inputs and parameters unchanged. "
              "Non-trivial = history involving >= 2 model types, or an interior cut on a stateful model; distinct = distinct case",
         assumptions=[],
         quick=dict(stages=[st(4000, shards=8, timeout=900)]),
@@ -169,7 +169,7 @@ CHECKS = {
         require={'missing-parameter-and-input': 0.005, 'nested-encoding': 0.05, 'default-after-an-earlier-request-named-the-parameter': 0.02},
         pkg="c17", level="exploration",
         pre=[dict(kind="harness_main", repo_dir="cmd/ow-single", pkg="owsingle", out="ow-single", env="VERIF_OWSINGLE")],
-        rule="(a) rapid-generated structured requests (any non-dimensioned catalogued model, any subset/superset/order of parameters and inputs, equal series lengths, values in domain): in-process with all parameters present and both encodings (split / nested), and through the real ow-single binary (child process, stdin/stdout) with subsets so that defaults are used; oracle: decoded outputs/states bit-equal (after the NaN/+Inf/-Inf string mapping) to a direct one-cell run with defaults / zeros, every missing parameter and input named by a log entry and nothing present reported missing. "
+        rule="(a) rapid-generated structured requests (any non-dimensioned catalogued model, any subset/superset/order of parameters and inputs, including names that differ from a declared one only in the case of a letter - other names, to be ignored -, equal series lengths, values in domain): in-process with all parameters present and both encodings (split / nested), and through the real ow-single binary (child process, stdin/stdout) with subsets so that defaults are used; oracle: decoded outputs/states bit-equal (after the NaN/+Inf/-Inf string mapping) to a direct one-cell run with defaults / zeros, every missing parameter and input named by a log entry and nothing present reported missing. "
              "(b) robustness through the child process: grammar-generated requests (name only, unknown / missing / mistyped name, unequal lengths, wrong types, hostile numbers, truncated / trailing bytes, arbitrary bytes): exit status 0, stdout exactly one JSON document, a non-runnable request answered with a non-empty log and no outputs. "
              "(c) JsonSafeArray on generated float64 views of rank 1..4 (sliced, stepped) with NaN/+-Inf sprinkled, every shiftDim, against nesting computed on the extensional model. Non-trivial = (a) >=1 missing parameter and >=1 missing input (or >1 input series in-process), (b) request that is valid JSON but not runnable, or runnable hostile request, (c) rank >= 3 or stepped view; distinct = distinct case",
         assumptions=["the request is the first JSON value of the input stream (bytes after it are ignored by the streaming decoder; not flagged)",
@@ -190,9 +190,9 @@ CHECKS = {
         require={'load:step>1': 0.03, 'non-contiguous-source-view': 0.05, 'load:reused-selection-object': 0.01, 'writeSlice': 0.03, '__nontrivial__': 0.2},
         pkg="c08", level="exploration",
         overlay=dict(inject={"io/zz_verif_export.go": "harness/overlays/io_export.go"}),
-        rule="rapid-generated histories of 1-25 operations over two files in the HDF5 stand-in: Create (new / same shape / different shape / with compression), Write of a generated source view (all 8 element types, Go- and C-backed, any layout), WriteSlice of a generated sub-array at a location, Load with Slice nil or per-dimension nil | [start, stop, step] (stop possibly beyond the extent, step 1..4; one load in three hands over the very selection object an earlier load of the history used, as ow-sim does), Exists / Shape / GetDatasets / GetGroups; "
+        rule="rapid-generated histories of 1-25 operations over two files in the HDF5 stand-in: Create (new / same shape / different shape / with compression), Write of a generated source view (all 8 element types, Go- and C-backed, any layout), WriteSlice of a generated sub-array at a location, Load with Slice nil or per-dimension nil | [start, stop, step] (stop possibly beyond the extent, in one selection of eight far beyond it: 1000, 2^31-1, 2^31, 2^40, 2^62, MaxInt-1, MaxInt; step 1..4; one load in three hands over the very selection object an earlier load of the history used, as ow-sim does), Exists / Shape / GetDatasets / GetGroups; "
              "model = map path -> (type, shape, values); after every operation the raw bytes of every dataset (decoded independently) and a whole-dataset Load equal the model, Load(sel) has exactly the shape and elements of the in-memory slice start:min(stop,n):step, re-create leaves values unchanged and a different shape is refused, listings equal the model; lock probe at every stand-in call (TryLock must fail; for mutating calls TryRLock must fail); "
-             "exhaustive enumeration of sliceSize / makeHyperslab over n<=12, all start, stop<=n+3, step<=5; concurrent workers each owning a dataset of one shared file (run under the race detector in the thorough tier); a self-check of the stand-in's selection against nested loops; LoadText of fixed-width string datasets placed by the stand-in (NUL-padded, or filling the width without a terminator) returns exactly the strings, and an error for numeric or missing datasets. "
+             "exhaustive enumeration of sliceSize / makeHyperslab over n<=12, all start, stop<=n+3 and the seven far stops, step<=5; concurrent workers each owning a dataset of one shared file (run under the race detector in the thorough tier); a self-check of the stand-in's selection against nested loops; LoadText of fixed-width string datasets placed by the stand-in (NUL-padded, or filling the width without a terminator) returns exactly the strings, and an error for numeric or missing datasets. "
              "Non-trivial = a load with step>1 or clipped stop, or a write whose source view is non-contiguous, or a selection triple with step>1 / clipped stop; distinct = distinct case",
         assumptions=["libhdf5 is not installed: a pure-Go stand-in (/verif/fakehdf5) with the binding's API, type table and raw-transfer rule is the trusted base; agreement with the real libhdf5 ABI (cgo type mapping, chunking/deflate, real error codes) cannot be executed here",
                      "empty selections and compress=true (refused by libhdf5 on a contiguous layout) are a separate class that must only leave everything else intact",
